@@ -31,6 +31,7 @@ HARNESSES := $(patsubst $(ROOT)/sim/%.cpp,%,$(wildcard $(ROOT)/sim/*sim.cpp))
 BINS      := $(addprefix $(BUILD)/bin/,$(HARNESSES))
 SIMHDR    := $(wildcard $(ROOT)/sim/*.hpp)
 
+.SECONDARY:
 .PHONY: setup all clean
 setup all: $(BINS)
 
